@@ -73,7 +73,9 @@ func (P) Rule() string {
 		"st ms during the drain phase (responses of several MiB, far larger than the socket buffers) and then read on or give up (ab=1); " +
 		"connections may hold a blind CONNECT tunnel (open, or its CONNECT parked in the request modifier / the dial / the response modifier), " +
 		"be MITM'd tunnels (m=1: the six points inside the decrypted tunnel, or the client silent after the 200), or be hijacked by a modifier; " +
-		"Close() may be called by up to 4 concurrent callers. Distinct by hash of the op; non-trivial when Close() was called " +
+		"Close() may be called by up to 4 concurrent callers; the origin of one exchange per connection may FAIL (f=: connection closed " +
+		"before any answer, truncated response head, timeout — stub released with an error, or the raw origin misbehaving): the client is owed " +
+		"the proxy's complete 502. Distinct by hash of the op; non-trivial when Close() was called " +
 		"while at least one connection was parked inside an exchange, held before the spawn, or accepted late, or (race) when at least " +
 		"one exchange started"
 }
@@ -150,6 +152,8 @@ type cplan struct {
 	point    string
 	parkSeq  int  // exchange number (0-based) on which to park
 	resClose bool // response Close on the parked exchange
+	fault    int  // origin fault on exchange failSeq: 0 none, 1 connection closed before any answer (refused / reset), 2 truncated response head, 3 timeout
+	failSeq  int  // X-Seq of the exchange whose round trip fails (-1: none)
 	gate     chan struct{}
 	parked   chan struct{}
 	once     sync.Once
@@ -161,7 +165,7 @@ type cplan struct {
 }
 
 func newPlan(point string, seq int, resClose bool) *cplan {
-	return &cplan{point: point, parkSeq: seq, resClose: resClose, gate: make(chan struct{}), parked: make(chan struct{}),
+	return &cplan{point: point, parkSeq: seq, resClose: resClose, failSeq: -1, gate: make(chan struct{}), parked: make(chan struct{}),
 		ogate: make(chan struct{}), oparked: make(chan struct{}), rmDone: make(chan struct{})}
 }
 
@@ -533,6 +537,11 @@ func (t rtrip) RoundTrip(req *http.Request) (*http.Response, error) {
 		t.w.log.add("rtx:%d:%s", sc.k, sanitize(err.Error()))
 		return nil, err
 	}
+	if sc.plan != nil && sc.plan.fault > 0 && sc.plan.failSeq == i {
+		// the origin fails (event rtf): the proxy owes the client a 502, shutdown or not
+		t.w.log.add("rtf:%d", sc.k)
+		return nil, originFault(sc.plan.fault)
+	}
 	if rc {
 		t.w.log.add("rte:%d:1", sc.k)
 	} else {
@@ -549,6 +558,25 @@ func (t rtrip) RoundTrip(req *http.Request) (*http.Response, error) {
 	return res, nil
 }
 
+type faultErr struct {
+	msg     string
+	timeout bool
+}
+
+func (e faultErr) Error() string   { return e.msg }
+func (e faultErr) Timeout() bool   { return e.timeout }
+func (e faultErr) Temporary() bool { return e.timeout }
+
+func originFault(kind int) error {
+	switch kind {
+	case 2:
+		return faultErr{msg: "c07: malformed HTTP response (truncated head)"}
+	case 3:
+		return faultErr{msg: "c07: i/o timeout awaiting response headers", timeout: true}
+	}
+	return faultErr{msg: "c07: connection refused / reset by the origin"}
+}
+
 // rtObs observes the proxy's own round tripper (the default *http.Transport of NewProxy): the request,
 // with whatever context the proxy gave it, is passed through untouched.
 type rtObs struct {
@@ -557,7 +585,7 @@ type rtObs struct {
 }
 
 func (t rtObs) RoundTrip(req *http.Request) (*http.Response, error) {
-	addr, _ := ids(req)
+	addr, i := ids(req)
 	sc := t.w.connOf(addr)
 	if sc == nil {
 		t.w.log.add("bad:-1:unknown-conn-in-rt")
@@ -566,6 +594,10 @@ func (t rtObs) RoundTrip(req *http.Request) (*http.Response, error) {
 	t.w.log.add("rts:%d", sc.k)
 	res, err := t.base.RoundTrip(req)
 	if err != nil {
+		if sc.plan != nil && sc.plan.fault > 0 && sc.plan.failSeq == i && req.Context().Err() == nil {
+			t.w.log.add("rtf:%d", sc.k) // the harness origin failed this exchange on purpose
+			return res, err
+		}
 		t.w.log.add("rtx:%d:%s", sc.k, sanitize(err.Error()))
 		return res, err
 	}
@@ -621,8 +653,14 @@ func (o *origin) handle(c net.Conn) {
 		io.Copy(io.Discard, req.Body)
 		addr, i := ids(req)
 		var pl *cplan
-		if sc := o.w.connOf(addr); sc != nil && sc.plan != nil && sc.plan.parkSeq == i {
-			pl = sc.plan
+		faulty := 0
+		if sc := o.w.connOf(addr); sc != nil && sc.plan != nil {
+			if sc.plan.parkSeq == i {
+				pl = sc.plan
+			}
+			if sc.plan.fault > 0 && sc.plan.failSeq == i {
+				faulty = sc.plan.fault
+			}
 		}
 		head := "HTTP/1.1 200 OK\r\nContent-Type: application/octet-stream\r\n"
 		var payload []byte
@@ -649,6 +687,13 @@ func (o *origin) handle(c net.Conn) {
 		if pl != nil && pl.point == "rt" {
 			pl.arrive()
 			waitCh(pl.gate, 30*time.Second)
+		}
+		if faulty > 0 {
+			// origin fault: the connection dies before any answer, or in the middle of the response head
+			if faulty == 2 {
+				c.Write([]byte("HTTP/1.1 200 OK\r\nContent-Le"))
+			}
+			return
 		}
 		half := len(payload) / 2
 		c.SetWriteDeadline(time.Now().Add(60 * time.Second))
@@ -877,6 +922,7 @@ type client struct {
 	secHost string      // MITM'd tunnel: authority of the requests sent inside it
 	aborted int32       // the client gave up on purpose: read errors are not the proxy's fault
 	closed  int32       // the client closed its end on purpose
+	failIdx int         // the response with this index answers an exchange whose origin failed: a 502 (-1: none)
 	rchunk  int         // slow reader: bytes per read (0 = unthrottled)
 	rpause  time.Duration
 	rfrom   int
@@ -1067,7 +1113,7 @@ func (w *world) dial() (*client, error) {
 	if tc, ok := c.(*net.TCPConn); ok && w.sbuf > 0 {
 		tc.SetReadBuffer(w.sbuf << 10)
 	}
-	return &client{w: w, c: c, addr: c.LocalAddr().String(), k: -1, eof: make(chan struct{}), holdSeq: -1, tun: make(chan []byte, 256)}, nil
+	return &client{w: w, c: c, addr: c.LocalAddr().String(), k: -1, eof: make(chan struct{}), holdSeq: -1, failIdx: -1, tun: make(chan []byte, 256)}, nil
 }
 
 // evKey is the connection index if known, else a placeholder resolved when the log is rendered.
@@ -1160,6 +1206,17 @@ func (cl *client) reader() {
 			cl.w.log.add("eof:%s", cl.key()) // the client itself gave up on this response
 			return
 		}
+		if int(atomic.LoadInt32(&cl.resps)) == cl.failIdx {
+			// the origin failed: the proxy's own complete 502 (with its Warning) is the response owed
+			if err != nil || res.StatusCode != 502 || res.Header.Get("Warning") == "" {
+				cl.w.log.add("bad:%s:status-%d-not-the-502-owed-for-a-failed-round-trip", cl.key(), res.StatusCode)
+				cl.w.log.add("eof:%s", cl.key())
+				return
+			}
+			cl.w.log.add("resp:%s:%d", cl.key(), mark)
+			atomic.AddInt32(&cl.resps, 1)
+			continue
+		}
 		if err != nil || res.StatusCode != 200 || !bytes.Equal(b, cl.w.body) {
 			cl.w.log.add("bad:%s:status-%d-body-%d-of-%d-not-the-origin-response", cl.key(), res.StatusCode, len(b), len(cl.w.body))
 			cl.w.log.add("eof:%s", cl.key())
@@ -1243,6 +1300,7 @@ type scenario struct {
 	nclose int // cl: number of concurrent callers of Close() (default 1)
 	rchunk int // rk: KiB the clients of the parked exchanges read at a time (0 = as fast as they can)
 	rpause int // rp: µs they pause between two reads
+	fault  []int // f: per connection, origin fault on one of its exchanges (0 none, 1 refused/reset, 2 truncated head, 3 timeout)
 	raw    bool // rw=1: the proxy serves the accepted *net.TCPConn itself; only modifiers and clients are observed
 }
 
@@ -1321,6 +1379,17 @@ func parseScn(op string) (*scenario, bool) {
 				return nil, false
 			}
 			sc.order = v
+		case "f":
+			v, ok := parseInts(kv[1])
+			if !ok {
+				return nil, false
+			}
+			for _, x := range v {
+				if x > 3 {
+					return nil, false
+				}
+			}
+			sc.fault = v
 		case "b":
 			n, err := strconv.Atoi(kv[1])
 			if err != nil || n < 0 || n > 1<<26 {
@@ -1414,7 +1483,10 @@ func parseScn(op string) (*scenario, bool) {
 			sc.order = append(sc.order, i)
 		}
 	}
-	if len(sc.x) != n || len(sc.q) != n || len(sc.s) != n || len(sc.order) != n {
+	if sc.fault == nil {
+		sc.fault = make([]int, n)
+	}
+	if len(sc.x) != n || len(sc.q) != n || len(sc.s) != n || len(sc.order) != n || len(sc.fault) != n {
 		return nil, false
 	}
 	seen := map[int]bool{}
@@ -1441,6 +1513,9 @@ func parseScn(op string) (*scenario, bool) {
 			// the origin parks after it has written half of the body: impossible while the client of a
 			// large response does not read
 			if sc.stall > 0 && sc.body > 100000 {
+				return nil, false
+			}
+			if sc.fault[i] != 0 { // these points need the origin to get half of its answer out
 				return nil, false
 			}
 		case "tunnel", "cdial", "creqmod", "cresmod": // blind CONNECT tunnel (no MITM)
@@ -1488,6 +1563,18 @@ func runScenario(sc *scenario) (trace []string, v verdict, counted map[int]bool)
 		plans[k] = newPlan(sc.pts[k], sc.x[k], sc.s[k])
 		if sc.inTunnel(k) {
 			plans[k].parkSeq++ // the CONNECT that opened the tunnel was request 0
+		}
+		if sc.fault[k] > 0 {
+			// which exchange's origin fails: the parked one where there is one (before, in or after its round
+			// trip), else the last warm-up exchange (a 502 already served when shutdown finds the connection idle)
+			switch sc.pts[k] {
+			case "reqmod", "rt", "resmod", "write":
+				plans[k].fault, plans[k].failSeq = sc.fault[k], plans[k].parkSeq
+			case "idle", "head", "phead":
+				if sc.x[k] > 0 {
+					plans[k].fault, plans[k].failSeq = sc.fault[k], plans[k].parkSeq-1
+				}
+			}
 		}
 		if sc.pts[k] == "phead" {
 			plans[k].parkSeq = -1 // no exchange of this connection is parked (its q/s flags mean nothing)
@@ -1556,6 +1643,12 @@ func runScenario(sc *scenario) (trace []string, v verdict, counted map[int]bool)
 		if sc.stalls(k) {
 			cl.hold = make(chan struct{})
 			cl.holdSeq = sc.x[k]
+		}
+		if plans[k].failSeq >= 0 {
+			cl.failIdx = plans[k].failSeq
+			if sc.inTunnel(k) {
+				cl.failIdx-- // the CONNECT's 200 is not counted among the responses
+			}
 		}
 		if sc.rchunk > 0 {
 			switch sc.pts[k] {
@@ -2169,6 +2262,11 @@ func (e *ex) do(op string) core.Result {
 		if sc.rchunk > 0 {
 			core.Count("slow-reader")
 		}
+		for k, f := range sc.fault {
+			if f > 0 {
+				core.Count(fmt.Sprintf("origin-fault:%s:%d", sc.pts[k], f))
+			}
+		}
 		// without server-side events (raw mode) the trace cannot be validated against the model: oracle only
 		return core.Result{Impl: implLine(trace, early), Fail: detail, Sig: v.sig, ModelOp: render(trace), SkipModel: sc.raw}
 	case strings.HasPrefix(op, "race "):
@@ -2538,6 +2636,65 @@ func randExt(r *core.Rand) string {
 	return extOp(pts, x, q, s, ps[r.Intn(len(ps))], body, mitm, ncl)
 }
 
+// faultScn: the six progress points (and the pipelined head) × ORIGIN FAULTS. On 1..3 connections the origin of
+// one exchange fails — connection closed before any answer (dial refused / reset), truncated response head,
+// timeout — with the stub round tripper (released with an error), the real transport against the raw origin,
+// or inside MITM'd tunnels. The exchange concerned is the parked one (shutdown before, during or after its
+// failing round trip) or, for a connection found reading, the last one served. At least one connection has
+// shutdown placed before its failing round trip returns.
+func faultScn(r *core.Rand) string {
+	n := r.Range(1, 3)
+	pool := []string{"reqmod", "rt", "reqmod", "rt", "resmod", "write", "idle", "head", "phead"}
+	pts := make([]string, n)
+	x, q, s, f := make([]int, n), make([]int, n), make([]int, n), make([]int, n)
+	for i := range pts {
+		pts[i] = pool[r.Intn(len(pool))]
+		if r.Chance(1, 3) {
+			x[i] = r.Range(1, 2)
+		}
+		if r.Chance(1, 6) {
+			q[i] = 1
+		}
+		if r.Chance(2, 3) {
+			f[i] = r.Range(1, 3)
+			switch pts[i] {
+			case "idle", "head", "phead":
+				if x[i] == 0 {
+					x[i] = 1 // the failed exchange is the last warm-up
+				}
+			}
+		}
+	}
+	k := r.Intn(n)
+	pts[k], f[k] = r.Pick("reqmod", "rt"), r.Range(1, 3)
+	ps := perms(n)
+	op := scnOp(pts, x, q, s, ps[r.Intn(len(ps))], []int{0, 64, 5000, 70000}[r.Intn(4)]) + " f=" + join(f)
+	switch r.Intn(4) {
+	case 0:
+		op += fmt.Sprintf(" t=1 te=%d d=%d", r.Intn(2), []int{0, 500, 2000}[r.Intn(3)])
+	case 1:
+		op += " m=1"
+	}
+	return op
+}
+
+// faultGrid: shutdown before / during the failing round trip × fault kind × stub / real transport × warm-up.
+func faultGrid(emit func(ops []string)) {
+	for _, p := range []string{"reqmod", "rt"} {
+		for f := 1; f <= 3; f++ {
+			for x := 0; x <= 1; x++ {
+				op := scnOp([]string{p}, []int{x}, []int{0}, []int{0}, []int{0}, 64) + fmt.Sprintf(" f=%d", f)
+				emit([]string{op})
+				emit([]string{op + " t=1 te=0 d=500"})
+			}
+		}
+	}
+	for _, p := range []string{"resmod", "write", "idle", "phead"} { // the 502 is already on its way / served
+		emit([]string{scnOp([]string{p}, []int{1}, []int{0}, []int{0}, []int{0}, 64) + " f=1"})
+	}
+	emit([]string{scnOp([]string{"rt"}, []int{1}, []int{0}, []int{0}, []int{0}, 64) + " f=2 m=1"})
+}
+
 // slowScn: clients that never stop reading but drain slower than the proxy writes (rk KiB every rp µs), a
 // multi-MiB response, shutdown in the middle of the exchange. raw: the proxy is handed the accepted
 // *net.TCPConn itself (whatever it does to real TCP sockets — socket options at close, linger — happens),
@@ -2763,6 +2920,10 @@ func (P) Gen(r *core.Rand, tier string, emit func(ops []string)) {
 		for i := 0; i < 50; i++ {
 			emit([]string{slowScn(r, i%5 < 3)})
 		}
+		faultGrid(emit)
+		for i := 0; i < 800; i++ {
+			emit([]string{faultScn(r)})
+		}
 		return
 	}
 	// quick: exhaustive for 1 and 2 connections (6 + 36·2 scenarios), then a seeded sample
@@ -2800,6 +2961,10 @@ func (P) Gen(r *core.Rand, tier string, emit func(ops []string)) {
 	}
 	for i := 0; i < 5; i++ {
 		emit([]string{slowScn(r, i < 3)})
+	}
+	faultGrid(emit)
+	for i := 0; i < 40; i++ {
+		emit([]string{faultScn(r)})
 	}
 	// one slow-client scenario (≈ 7–9 s): clients stalled during the drain phase, bodies ≫ socket buffers
 	emit([]string{stallScn(r, r.Range(6500, 8500), r.Chance(1, 2), false)})
